@@ -1,11 +1,12 @@
 SPECIFICATION SimSpec
 CONSTANTS
-  Ids = {"i1", "i2", "i3"}
+  Ids = {"i1", "i2", "i3", "k1", "k2"}
   Tos = {"none", "server", "bare", "full"}
   RFroms = {"exact", "absent", "bareOf", "otherRes", "ownFull", "ownOther", "ownBare", "server", "stranger", "look", "look2"}
   Types = {"result", "error", "errorBare", "set", "get"}
   OpenKinds = {"plain", "sm", "smr", "resumed"}
   Cids = {"fresh", "empty", "dup"}
+  Bodies = {"none", "sendNew"}
   Attempts = {"authfail", "bindfail", "userabort", "precut", "abandon"}
   IdRule = "replace"
   MaxHist = 99
